@@ -8,7 +8,7 @@ def run(tier, seed):
     try:
         from contracts import circuit_c, graph_c
         from pyvc.verify import verify
-        res.report = verify(circuit_c.targets() + graph_c.targets(), timeout_s=20 if tier == 'quick' else 120)
+        res.report = verify(circuit_c.targets() + circuit_c.targets_free_index() + graph_c.targets(), timeout_s=20 if tier == 'quick' else 120)
     except ImportError:
         res.report = None
     res.explanation = ('Tier P (unbounded, small): the container primitives under the graph -- IndexList.__delitem__ (swap-with-last deletion that re-indexes the moved element) and '
@@ -19,10 +19,11 @@ def run(tier, seed):
                        'back-references, pins reference lines of the circuit, forks without gaps, name tables) and proved to re-establish them, to add / remove exactly the one object, and '
                        'to leave every other object\'s driver, reader, pins and position as stated (frame). Tier B (bounded, the deciding part for the class invariant): wf(circuit) is evaluated as a runtime class invariant after '
                        'every step of edit histories through the public API (exhaustive over a small alphabet up to a stated length, seeded long histories), and after copy / pickle / eliminate_1to1_forks / substitute on the shared circuit space (incl. chains of 1:1 forks, cells and forks sharing a name).')
-    res.bounded = [graph_drv.history_part(tier, seed), graph_drv.transforms_part(tier, seed, skip=('state-order:last-node-moved-into-freed-index',))]
+    from vk.common import guarded_parts
+    res.bounded = guarded_parts(res, lambda: graph_drv.history_part(tier, seed), lambda: graph_drv.transforms_part(tier, seed, skip=('state-order:last-node-moved-into-freed-index',)))
     res.assumptions = ['well-formed use as stated in the property: explicit pins only on free positions, nodes removed after their lines, forks have exactly one input',
                        'Node.__init__ and the rewiring transformations (eliminate_1to1_forks, substitute, copy, pickle) are covered by the bounded part only',
-                       'GrowingList.free_index by an assumed contract (first None position or len); IndexList.__delitem__ / GrowingList.__setitem__ by their proved contracts',
+                       'IndexList.__delitem__ / GrowingList.__setitem__ / GrowingList.free_index (first None position or len) enter Node / Line by their contracts, each proved here on its own; for free_index the generator expression is evaluated symbolically at an arbitrary position and next() / enumerate() enter by their Python semantics',
                        'object identity: distinct ids are distinct objects; kinds abstracted to fork / not fork; names to integers']
     res.trusted_base = ['pyvc', 'z3 5.1.0', 'bounded/graph_drv.py (wf predicate)']
     return res
